@@ -112,7 +112,9 @@ def render (q : Quirks) (compressed : Bool) (p : List (Stmt String)) : String :=
   match run q (strOps q.vendorKeyframesPrefixed) isCssAtRule compressed defaultFuel p with
   | .error .outOfFuel => "fuel"
   | .error _ => "err"
-  | .ok out => "ok:" ++ canonItems (compressed, q.compressedMultilineGarbled) 0 out.items
+  | .ok out => let ops := strOps q.vendorKeyframesPrefixed
+    "ok:" ++ canonItems (compressed, q.compressedMultilineGarbled)
+      (if q.hashCommentDropped then ops.isHash else ops.isSourceMap) 0 out.items
 
 def handle (flags : List String) (op : String) (args : List String) : String :=
   match op, args with
